@@ -23,6 +23,15 @@ CLAIMS = {
     ),
 }
 
+CLAIMS["C08"] = dict(
+    text=("Deductive proof, for every decoder state satisfying its representation invariant and every packet, of: no panic "
+          "(index, slice, nil, division, make), the retention counters stay within the documented maximum (representation invariant "
+          "re-established at exit), a call returns a frame or an error and a returned frame is within the maximum, and the frame "
+          "condition that Decode writes no byte of any array that existed before the call (so frames already returned are never altered)."),
+    note=TRUST + "Packets are assumed to carry at most 65535 payload bytes (transport limit). Decoders not yet under contract are listed in the evidence under not_decided.",
+    design="DESIGN.md section 4, C08",
+)
+
 NOT_APPLICABLE = {
     "C11": "process-level property over channels, goroutines and timeouts (no deadlock, cleanup of goroutines/sessions): not expressible as a contract on one call or one data structure; the leaf validators it relies on are covered under other properties",
     "C13": "liveness and schedule property (Close returns in bounded time under all interleavings, no leaked goroutine or socket, callback ordering): outside sequential contract-based verification",
